@@ -5847,6 +5847,10 @@ class Path(Shape, MutableSequence):
             if isinstance(segment, Move):
                 self._segments[index].end = Point(segment.end)
                 return
+            if i != index and isinstance(segment, Close) and segment.end is not None:
+                # An earlier close of the same subpath already points at the subpath start.
+                self._segments[index].end = Point(segment.end)
+                return
         self._segments[index].end = (
             Point(self._segments[0].end) if self._segments[0].end is not None else None
         )
@@ -6074,6 +6078,10 @@ class Path(Shape, MutableSequence):
         end_pos = None
         for segment in reversed(self._segments):
             if isinstance(segment, Move):
+                end_pos = segment.end
+                break
+            if isinstance(segment, Close) and segment.end is not None:
+                # A close ends at the start of its own subpath, which stays the start for what follows.
                 end_pos = segment.end
                 break
         if end_pos is None:
